@@ -160,7 +160,11 @@ def setDefinition(pattern: str, flags: str, replacement: str) -> None:
         flgs |= re.IGNORECASE
     if 'm' in flags:
         flgs |= re.MULTILINE
-    regexp = re.compile(pattern, flgs)
+    try:
+        regexp = re.compile(pattern, flgs)
+    except (re.error, OverflowError):
+        options.errorCallback(f'illegal replacement regular expression: {pattern}')
+        return
     d = getDefinition(pattern)
     if d is not None:
         # Update existing definition.
